@@ -60,7 +60,7 @@ constexpr char const* kQueueName = E2E_QUEUE == 0 ? "UnboundedBlocking" : E2E_QU
 // encoded size of our standard statement: header 32 (timestamp, metadata, logger, decoder) + 3*u32 + string_view
 // (u32 length + bytes); a payload of kMaxPayload bytes encodes to exactly kLimit bytes
 constexpr size_t kOverhead = 32 + 12 + 4;
-constexpr size_t kMaxPayload = kLimit - kOverhead;
+constexpr size_t kMaxPayload = (kLimit - kOverhead) < 200000 ? (kLimit - kOverhead) : 200000;
 
 // ------------------------------------------------------------------------------------------ globals
 inline Stats g_stats;
@@ -73,6 +73,8 @@ inline std::atomic<uint32_t> g_delay{0}; // mode F delay intensity (0 = none)
 inline std::function<void(int, void const*, uint64_t)> g_inject; // mode S: called on the backend thread at every hook
 inline thread_local uint32_t tl_stall_us = 0;                      // mode F: sleep this long at FE_TS_TAKEN of the next statement
 inline thread_local Rng* tl_rng = nullptr;
+inline thread_local uint64_t tl_block_retries = 0, tl_block_idle_mark = 0;
+inline thread_local bool tl_control_op = false; // mode S: the current operation is a control request (flush, backtrace, removal)
 
 inline void stat_add(std::string const& k, long long n = 1)
 {
@@ -93,7 +95,8 @@ inline void hook(int p, void const* a, uint64_t b)
   {
     if (SWorker* w = tl_sworker)
     {
-      if (p == qv::FE_BLOCKED_RETRY || p == qv::FE_FLUSH_WAIT) w->park(p);
+      // a control request refused by a full dropping queue is retried by quill in a loop: park there too
+      if (p == qv::FE_BLOCKED_RETRY || p == qv::FE_FLUSH_WAIT || p == qv::FE_REMOVE_WAIT || (p == qv::FE_DROPPED && tl_control_op)) w->park(p);
       else if (p == qv::FE_TS_TAKEN && w->stall_after_clock_read)
       {
         w->stall_after_clock_read = false;
@@ -105,8 +108,23 @@ inline void hook(int p, void const* a, uint64_t b)
     return;
   }
   // mode F: random delays at windows that are outside any quill spinlock
+  if (p == qv::FE_BLOCKED_RETRY)
+  {
+    // progress verdict in logical steps: this producer has retried >= 100 times while the backend reported
+    // "all queues and buffers empty" >= 100 times since the first retry of this call: nothing is ahead of it
+    if (tl_block_retries++ == 0) tl_block_idle_mark = g_idle_cycles.load(std::memory_order_relaxed);
+    else if (tl_block_retries > 100 && g_idle_cycles.load(std::memory_order_relaxed) - tl_block_idle_mark > 100 && tl_block_retries != UINT64_MAX)
+    {
+      violation("C09", "blocked-call-never-resumes-with-idle-backend", J{}.unum("retries", tl_block_retries).unum("backend_idle_cycles_since_first_retry", g_idle_cycles.load() - tl_block_idle_mark).unum("encoded_size", b).str("queue", kQueueName).unum("cap", E2E_CAP).str("family", "mode F"));
+      end_ok();
+      fflush(stdout);
+      _exit(0);
+    }
+    return;
+  }
   if (p == qv::FE_TS_TAKEN)
   {
+    tl_block_retries = 0;
     if (tl_stall_us)
     {
       std::this_thread::sleep_for(std::chrono::microseconds(tl_stall_us));
@@ -199,10 +217,24 @@ inline int log_std(Lg* lg, quill::LogLevel lvl, uint32_t tid, uint32_t seq, std:
   case quill::LogLevel::Warning: VF_LOG_RES(res, lg, quill::LogLevel::Warning, "{}|{}|{}|{}", tid, seq, len, sv); break;
   case quill::LogLevel::Error: VF_LOG_RES(res, lg, quill::LogLevel::Error, "{}|{}|{}|{}", tid, seq, len, sv); break;
   case quill::LogLevel::Critical: VF_LOG_RES(res, lg, quill::LogLevel::Critical, "{}|{}|{}|{}", tid, seq, len, sv); break;
+  case quill::LogLevel::Backtrace: VF_LOG_RES(res, lg, quill::LogLevel::Backtrace, "{}|{}|{}|{}", tid, seq, len, sv); break;
   default: break;
   }
   return res;
 }
+
+#define VF_LOG_DYN(res, logger, lvl, fmt, ...)                                                                          \
+  do                                                                                                                   \
+  {                                                                                                                    \
+    if (logger->should_log_statement(lvl))                                                                             \
+    {                                                                                                                  \
+      static constexpr quill::MacroMetadata macro_metadata{__FILE__ ":" QUILL_STRINGIFY(__LINE__), __FUNCTION__, fmt,   \
+                                                           nullptr, quill::LogLevel::Dynamic, quill::MacroMetadata::Event::Log}; \
+      res = logger->template log_statement<false, true>(lvl, &macro_metadata, ##__VA_ARGS__) ? 1 : 0;                  \
+    }                                                                                                                  \
+    else                                                                                                               \
+      res = -1;                                                                                                        \
+  } while (0)
 
 // issue one standard statement and record the call/return events at the client boundary
 inline Issue issue_std(std::vector<Issue>& log, Lg* lg, uint16_t logger_idx, quill::LogLevel lvl, uint32_t tid, uint32_t seq, uint32_t len)
